@@ -295,6 +295,7 @@ func (self *DbImpl) RestoreFromReader(snapshot io.Reader) {
 	if err != nil {
 		panic(err)
 	}
+	_ = verifHook("restore.persisted")
 
 	self.reloadLock.Lock()
 	defer self.reloadLock.Unlock()
@@ -304,6 +305,7 @@ func (self *DbImpl) RestoreFromReader(snapshot io.Reader) {
 	if err = self.Close(); err != nil {
 		panic(fmt.Errorf("unable to close current database while applying snapshot (%w)", err))
 	}
+	_ = verifHook("restore.closed")
 
 	backupPath := dbPath + ".previous"
 	if err = os.Rename(dbPath, backupPath); err != nil {
@@ -313,6 +315,7 @@ func (self *DbImpl) RestoreFromReader(snapshot io.Reader) {
 	if err = os.Rename(snapshotPath, dbPath); err != nil {
 		panic(fmt.Errorf("unable to rename new db snapshot file [%v] to [%v] (%w)", snapshotPath, dbPath, err))
 	}
+	_ = verifHook("restore.renamed")
 
 	if err = self.Open(dbPath); err != nil {
 		panic(err)
